@@ -179,6 +179,8 @@ def run(ctx):
             for pbc in ((True, True, True), (True, True, False)):
                 L = [[a_, 0, 0], [m_ * a_ + d_, 3, 0], [0, 0, 9]]
                 min_cases.append(dict(L=L, pbc=list(pbc), vs=[[0, 0, 0], list(tiny)], excl=True, stream="nonreduced-crafted", boundary=False))
+        # a slab whose NON-periodic cell vector is the shortest of the three: it must not set the radius of the self-image search
+        min_cases.append(dict(L=[[a_, 0, 0], [m_ * a_ + d_, 3, 0], [0, 0, 1]], pbc=[True, True, False], vs=[[0, 0, 0]], excl=True, stream="nonreduced-crafted", boundary=False))
     # corpus: witnesses of the defects found while reading (scaled to integers)
     min_cases.insert(0, dict(L=[[300, 0, 0], [0, 300, 0], [100, 0, 10]], pbc=[True] * 3, vs=[[0, 0, 16]], excl=False, stream="corpus-F03a", boundary=False))
     min_cases.insert(1, dict(L=[[300, 0, 0], [0, 300, 0], [100, 0, 10]], pbc=[True] * 3, vs=[[0, 0, 0]], excl=True, stream="corpus-F03b", boundary=False))
